@@ -52,7 +52,7 @@ TYPES = ("A", "A2", "R", "G", "U", "F", "M", "IT", "N")
 from hv.ctxkit import WIDE  # noqa: E402
 
 # supplies 100.. : WIDE contexts (9 / 12 distinct types in one block; one / three of them again)
-WIDE_SUPPLY = [[*WIDE[:9], "A"], list(WIDE), ["W3"], ["W0", "W8", "A"], ["W11", "R"], [*WIDE[:8]], ["W8"]]
+WIDE_SUPPLY = [[*WIDE[:9], "A"], list(WIDE), ["W3"], ["W0", "W8", "A"], ["W11", "R"], [*WIDE[:8]], ["W8"], ["TA"], ["TB"], ["TA", "TB"], ["TB", "A"]]
 
 
 def _forests(n_max: int, kinds: list[str], supplies: list[int]):
@@ -157,6 +157,13 @@ def programs(tier: str):
                     k += 1
                     yield {"forest": [{"l": [ok, outer_s], "c": [{"l": [ik, inner_s], "c": []}]}], "order": "nd-first" if k % 2 else "d-first", "wide": True}
                     yield {"forest": [{"l": [ok, outer_s], "c": [{"l": [ik, inner_s], "c": [{"l": ["updated", 106], "c": []}]}, {"l": [ik, 102], "c": []}]}], "order": "d-first", "wide": True}
+    # two distinct state classes that share module and qualified name: still two types
+    for ok in ("ascope", "sscope", "updated", "dscope"):
+        for outer_s in (107, 108, 109):
+            for ik in ("ascope", "updated", "dscope"):
+                for inner_s in (107, 108, 110):
+                    k += 1
+                    yield {"forest": [{"l": [ok, outer_s], "c": [{"l": [ik, inner_s], "c": []}]}], "order": "nd-first" if k % 2 else "d-first", "wide": "twin"}
     if tier == "thorough":
         n4 = 0
         for shape in forest_shapes(4):
@@ -186,7 +193,7 @@ def execute(program, ch: Chooser) -> Result:  # noqa: C901, PLR0915
     stats = {"shadow": False, "dup": False, "sub": False, "prep": False, "abnormal": False, "equal": False}
 
     def probe(pos: str, env: list[dict], in_scope: bool, soft_root: bool) -> None:
-        types_ = TYPES if not program.get("wide") else (*TYPES[:4], *WIDE)
+        types_ = TYPES if not program.get("wide") else ((*TYPES[:4], *WIDE) if program["wide"] is True else ("A", "R", "TA", "TB"))
         got = probe_state(supplied, order, types=types_)
         exp = expected_state(env, in_scope, types=types_)
         for k in exp:
